@@ -252,7 +252,7 @@ theorem Step.dirParen {c c1 c2 : Ctx} {d : Dir} {ks : List Tok}
 /-! ## 2. PASTE names, macro collection -/
 
 /-- names of the PASTE nodes of a tree (`Props/C07.lean` states `pastesOf` and proves it equal to this).
-    A PASTE node has no children of its own (no table admits any), they are not looked at. -/
+    A PASTE node has no children of its own (no table allows any), they are not looked at. -/
 def pastes : Tree → List Nat
   | .node d kids => if d.kind == Gen.Kind.Paste then [d.name] else pastesL kids
 where pastesL : List Tree → List Nat
@@ -1373,5 +1373,34 @@ theorem expandList_drop (A : Macros) (x : Nat × Tree) (C : Macros) (rest : List
   rw [← expandList_le _ (expandFuel_mono hsz rest) _ _ _ hnf,
     ← (expand_drop A x C hclean' _).2 rest hrest]
   exact h
+
+/-! ## 6. Decidable equality of forests and results (only for the closing `example`s of the Props file;
+      not global instances) -/
+
+mutual
+  def decTree : (a b : Tree) → Decidable (a = b)
+    | .node d k, .node d' k' =>
+      if hd : d = d' then
+        match decForest k k' with
+        | isTrue hk => isTrue (by rw [hd, hk])
+        | isFalse hk => isFalse (by intro h; cases h; exact hk rfl)
+      else isFalse (by intro h; cases h; exact hd rfl)
+  def decForest : (a b : List Tree) → Decidable (a = b)
+    | [], [] => isTrue rfl
+    | [], _ :: _ => isFalse (by intro h; cases h)
+    | _ :: _, [] => isFalse (by intro h; cases h)
+    | a :: as, b :: bs =>
+      match decTree a b, decForest as bs with
+      | isTrue h1, isTrue h2 => isTrue (by rw [h1, h2])
+      | isFalse h1, _ => isFalse (by intro h; cases h; exact h1 rfl)
+      | _, isFalse h2 => isFalse (by intro h; cases h; exact h2 rfl)
+end
+
+def decExcept {ε α : Type} [DecidableEq ε] [DecidableEq α] : DecidableEq (Except ε α)
+  | .ok a, .ok b => if h : a = b then isTrue (by rw [h]) else isFalse (by intro h'; cases h'; exact h rfl)
+  | .error a, .error b =>
+    if h : a = b then isTrue (by rw [h]) else isFalse (by intro h'; cases h'; exact h rfl)
+  | .ok _, .error _ => isFalse (by intro h; cases h)
+  | .error _, .ok _ => isFalse (by intro h; cases h)
 
 end JSight.C07
